@@ -7,6 +7,7 @@ import (
 
 	"github.com/ozontech/seq-db/cache"
 	"github.com/ozontech/seq-db/disk"
+	"github.com/ozontech/seq-db/parser"
 	"github.com/ozontech/seq-db/seq"
 	rt "github.com/ozontech/seq-db/verifrt"
 )
@@ -91,5 +92,64 @@ func VerifReplayRepeat() {
 	rt.Assert(err == nil, "replay succeeds")
 	rt.Reach("replayed")
 	vRRCheck(g, 3, "after the restart")
+	rt.Reach("end")
+}
+
+// vRRDeliverTokens delivers one bulk of one document carrying the given tokens of field f.
+func vRRDeliverTokens(f *Active, id seq.ID, toks []string) {
+	body := []byte{byte(id.MID), '!'}
+	docsPayload := binary.LittleEndian.AppendUint32(nil, uint32(len(body)))
+	docsPayload = append(docsPayload, body...)
+	md := MetaData{ID: id, Size: uint32(len(body)), Tokens: []MetaToken{{Key: []byte(seq.TokenAll), Value: []byte{}}}}
+	for _, t := range toks {
+		md.Tokens = append(md.Tokens, MetaToken{Key: []byte("f"), Value: []byte(t)})
+	}
+	mb := md.MarshalBinaryTo(nil)
+	metasPayload := binary.LittleEndian.AppendUint32(nil, uint32(len(mb)))
+	metasPayload = append(metasPayload, mb...)
+	c := GetDocsMetasCompressor(1, 1)
+	c.CompressDocsAndMetas(docsPayload, metasPayload)
+	d, m := c.DocsMetas()
+	var wg sync.WaitGroup
+	wg.Add(1)
+	err := f.Append(append([]byte(nil), d...), append([]byte(nil), m...), &wg)
+	rt.Assert(err == nil, "the bulk is written")
+	wg.Wait()
+	PutDocMetasCompressor(c)
+}
+
+// VerifCollectorShrink: the append worker's collector re-sizes its buffers by the recent bulk
+// sizes (ReallocSolver, window scaled to 2 bulks): after a bulk with many tokens followed by small
+// ones - across the shrink - every document is still indexed under `_all_` and under its own
+// token, before and after a restart.
+func VerifCollectorShrink() {
+	docsF, metaF := &vFile{tearAt: -1}, &vFile{tearAt: -1}
+	disk.VerifReadAt = docsF.readAt
+	f := vRRActive(docsF, metaF)
+	f.MIDs.Append(systemMID)
+	f.RIDs.Append(systemRID)
+	n := 0
+	vRRDeliverTokens(f, seq.ID{MID: 100, RID: 1}, []string{"t0", "t1", "t2", "t3", "t4", "t5", "t6", "t7"})
+	n++
+	small := rt.Param("SMALL")
+	for i := 0; i < small; i++ {
+		vRRDeliverTokens(f, seq.ID{MID: seq.MID(90 - i), RID: seq.RID(2 + i)}, []string{"t0"})
+		n++
+		vRRCheck(f, n, "after a small bulk")
+		tids, ferr := f.TokenList.FindPattern(context.Background(), &parser.Literal{Field: "f", Terms: []parser.Term{{Kind: parser.TermText, Data: "t0"}}}, nil)
+		rt.Assert(ferr == nil && len(tids) == 1, "the token is in the dictionary once")
+		if ferr == nil && len(tids) == 1 {
+			t0 := f.TokenList.Provide(tids[0]).GetLIDs(f.MIDs, f.RIDs)
+			rt.Assert(len(t0) == n, "every document is indexed under the token it carries")
+		}
+	}
+	rt.Reach("delivered")
+	disk.VerifReadAt = metaF.readAt
+	g := vRRActive(docsF, metaF)
+	g.MIDs.Append(systemMID)
+	g.RIDs.Append(systemRID)
+	err := g.Replay(context.Background())
+	rt.Assert(err == nil, "replay succeeds")
+	vRRCheck(g, n, "after the restart")
 	rt.Reach("end")
 }
